@@ -1,5 +1,6 @@
 import DelbModel.Model.Serialize
 import DelbModel.Lemmas.Prefixes
+import DelbModel.Lemmas.PrefixesTotal
 /-!
 # C13 — Namespace declarations in output are consistent and honour the caller
 
@@ -81,5 +82,84 @@ example : ∃ nsmap, normalizeDecls [(some "foo", ""), (none, "urn:a")] = .ok ns
       [["", "urn:a"], ["urn:b"]] = .ok [("", ""), ("urn:a", "ns0:"), ("urn:b", "ns1:")] := by
   refine ⟨_, rfl, ?_, by rfl⟩
   exact c13_normalize_ok [(some "foo", ""), (none, "urn:a")] _ (by decide) rfl
+
+/-! ## totality
+
+Besides an assertion (`c13_no_assertion`) the only way `_collect_prefixes` can fail is the
+`NotImplementedError` of `_new_namespace_declaration`, raised when all `2**16` candidates `ns0`, …,
+`ns65535` are rejected; `Err.invalidCodePath` is not produced by `collect` at all.  A candidate is
+rejected when it is — with its colon — a prefix collected so far, or a prefix of the caller's mapping.
+The candidates are pairwise different, a collected prefix belongs to one namespace of the tree, and the
+caller's mapping always holds the two global prefixes `xml` and `xmlns`, which are no candidates; when a
+prefix is to be generated, at least one namespace of the tree has none yet.  Hence the size bound of
+`c13_collect_total`: (number of distinct namespaces in the tree) + (size of the caller's mapping,
+the global and the common-namespace entries `Namespaces` adds included) ≤ 65538.
+-/
+
+/-- **totality of prefix collection**: for every tree, every accepted caller mapping and every
+    iteration order of the namespace sets, `_collect_prefixes` yields a prefix map — provided the
+    distinct namespaces of the tree and the entries of the caller's mapping are together at most
+    `65536 + 2` -/
+theorem c13_collect_total (nsmap : Dict) (hn : NsMapOk nsmap) (root : Node)
+    (orders : List (List String)) (ho : ordersValid root orders = true)
+    (hsmall : (dedup (treeNamespaces root)).length + nsmap.length ≤ 65538) :
+    ∃ m, collect nsmap root orders = .ok m :=
+  collect_total hn root orders ho hsmall
+
+/-- the size bound is decidable -/
+instance (nsmap : Dict) (root : Node) :
+    Decidable ((dedup (treeNamespaces root)).length + nsmap.length ≤ 65538) := inferInstance
+
+/-- … and the map has the C13 guarantees -/
+theorem c13_collect_total_ok (nsmap : Dict) (hn : NsMapOk nsmap) (root : Node)
+    (orders : List (List String)) (ho : ordersValid root orders = true)
+    (hsmall : (dedup (treeNamespaces root)).length + nsmap.length ≤ 65538) :
+    ∃ m, collect nsmap root orders = .ok m ∧ PMapOk nsmap m root := by
+  obtain ⟨m, hm⟩ := c13_collect_total nsmap hn root orders ho hsmall
+  exact ⟨m, hm, c13_collect_ok nsmap hn root orders ho m hm⟩
+
+/-- when exactly `_new_namespace_declaration` gives up, for a symbolic bound: every candidate of the
+    range is rejected -/
+theorem c13_findFree_none_iff (nsmap m : Dict) (i bound : Nat) :
+    findFree nsmap m i bound = none ↔
+      ∀ j, i ≤ j → j < i + bound →
+        ("ns" ++ natToStr j ++ ":") ∈ dvalues m ∨ ("ns" ++ natToStr j) ∈ dkeys nsmap :=
+  findFree_eq_none_iff
+
+/-- the pigeonhole bound behind `c13_collect_total`, for a symbolic bound: with fewer collected
+    prefixes and caller prefixes than candidates, a free candidate is found … -/
+theorem c13_findFree_some (nsmap m : Dict) (i bound : Nat) (h : m.length + nsmap.length < bound) :
+    (findFree nsmap m i bound).isSome :=
+  findFree_isSome (dkeys nsmap) (fun _ hj => hj) i bound (by simpa [dkeys] using h)
+
+/-- … and it cannot be relaxed: a caller mapping that binds `ns0` … `ns{bound-1}` (`genMap bound`, of
+    size `bound`; `pre` = any further entries) blocks all `bound` candidates -/
+theorem c13_findFree_exhausted (pre m : Dict) (bound : Nat) :
+    findFree (pre ++ genMap bound) m 0 bound = none :=
+  findFree_genMap pre m bound
+
+/-- the converse boundary of `c13_collect_total`: the mapping with the two global prefixes and
+    `ns0` … `ns65535` is accepted and has `65538` entries; a tree with two namespaces the caller did
+    not bind (`2 + 65538 > 65538`) makes `_collect_prefixes` raise `NotImplementedError`.
+    (Not evaluated: proved from `c13_findFree_exhausted`.) -/
+theorem c13_collect_exhausted :
+    NsMapOk (boundMap 65536) ∧ (boundMap 65536).length = 65538 ∧
+    collect (boundMap 65536) (.tag "urn:r" "r" [⟨"urn:a", "k", []⟩] []) [["urn:a", "urn:r"]]
+      = .error .notImplemented :=
+  ⟨nsMapOk_boundMap 65536, length_boundMap 65536, collect_exhausted⟩
+
+/-- non-vacuity of `c13_collect_total`: an accepted mapping (with a caller prefix that looks like a
+    generated one), a tree with three namespaces -/
+example : ∃ nsmap, normalizeDecls [(some "ns0", "urn:b")] = .ok nsmap ∧
+    ∃ m, collect nsmap (.tag "urn:a" "r" [⟨"urn:c", "k", []⟩] [.tag "urn:b" "e" [] []])
+      [["urn:c", "urn:a"], ["urn:b"]] = .ok m := by
+  refine ⟨_, rfl, ?_⟩
+  exact c13_collect_total _ (c13_normalize_ok [(some "ns0", "urn:b")] _ (by decide) rfl) _ _
+    (by decide) (by decide)
+
+/-- the small instance of the boundary, evaluated: with a search bound of 2 and `ns0`, `ns1` taken
+    nothing is found; one more candidate would do -/
+example : findFree [("ns0", "urn:b"), ("ns1", "urn:c")] [] 0 2 = none ∧
+    findFree [("ns0", "urn:b"), ("ns1", "urn:c")] [] 0 3 = some "ns2:" := by decide
 
 end Delb.Ser
